@@ -217,8 +217,8 @@ int main(int argc, char **argv)
         /* large counts, short outputs */
         { static const unsigned long BC[] = {100, 1000, 4096, 257, 65};
           for (i = 0; i < (a.thorough ? 5 : 3); ++i, ++idx) if (mine(&a, idx)) pbkdf2_case(&a, idx, i % 2 ? 33 : 20, PWL[(i + 2) % 7], 8, BC[i]); }
-        { static const unsigned SP[] = {127, 128, 129, 255, 256, 257, 1023, 1024, 1025, 4096};
-          for (i = 0; i < 10; ++i, ++idx) if (mine(&a, idx)) pbkdf2_case(&a, idx, 40 + (size_t)i, SP[i], (size_t)(i * 5), 2);       /* special password lengths */
+        { static const unsigned SP[13] = {127, 128, 129, 255, 256, 257, 1023, 1024, 1025, 4096, 65535, 65536, 65537};
+          for (i = 0; i < 13; ++i, ++idx) if (mine(&a, idx)) pbkdf2_case(&a, idx, 40 + (size_t)i, SP[i], (size_t)(i * 5), 2);       /* special password lengths */
           for (i = 0; i < 13; ++i, ++idx) if (mine(&a, idx)) pbkdf2_case(&a, idx, 33, (size_t)(i * 9), SP[i], 1 + (unsigned long)(i % 3)); }  /* special salt lengths */
         /* iteration counts beyond 16 bits: too slow for the model, but a count that is narrowed to 16 bits makes
          * count = 65536 + k indistinguishable from k (relational oracle, library only) */
